@@ -49,6 +49,9 @@ type C29Case struct {
 	// Multi: failure sequences - each a set of call indices (taken modulo the number of calls of the healthy
 	// run) that fail once each while the calls between them succeed
 	Multi [][]int `json:"multi,omitempty"`
+	// StringWriter (write side): the destination also implements io.StringWriter (like *os.File or
+	// *bufio.Writer); its WriteString calls are write calls like any other and fail the same way
+	StringWriter bool `json:"string_writer,omitempty"`
 }
 
 var c29WriteEntries = []string{"MarshalCBE", "MarshalCTE", "CBEMarshaler.Marshal", "CTEMarshaler.Marshal", "CBEEncoder", "CTEEncoder"}
@@ -148,8 +151,17 @@ func (r *faultReader) Read(p []byte) (int, error) {
 	return n, nil
 }
 
-func c29Write(c *C29Case, ctx *Ctx, w *faultWriter) (err error, bad error) {
+// faultStringWriter adds WriteString to a faultWriter.
+type faultStringWriter struct{ *faultWriter }
+
+func (w faultStringWriter) WriteString(s string) (int, error) { return w.faultWriter.Write([]byte(s)) }
+
+func c29Write(c *C29Case, ctx *Ctx, fw *faultWriter) (err error, bad error) {
 	cfg := newCfg()
+	var w io.Writer = fw
+	if c.StringWriter {
+		w = faultStringWriter{fw}
+	}
 	var v interface{}
 	if c.Type != nil {
 		v = gen.Build(c.Type, c.Val).Interface()
@@ -229,6 +241,7 @@ func genC29(t *rapid.T, ctx *Ctx) interface{} {
 	if rapid.Bool().Draw(t, "side") {
 		c := &C29Case{Side: "write", Entry: rapid.SampledFrom(c29WriteEntries).Draw(t, "entry")}
 		c.Err = rapid.SampledFrom([]string{"", "", "unexpected-eof", "wrapped-eof"}).Draw(t, "werr")
+		c.StringWriter = rapid.Bool().Draw(t, "stringwriter")
 		c.Multi = genC29Multi(t)
 		if c.Entry == "CBEEncoder" || c.Entry == "CTEEncoder" {
 			c.Events = gen.Document(t, evOpts)
@@ -271,6 +284,7 @@ func init() {
 			ctx.Label("side:" + c.Side)
 			ctx.Label("entry:" + c.Entry)
 			ctx.Label("error-value:" + c.Err)
+			ctx.LabelIf(c.StringWriter, "destination with WriteString")
 			faults, hits := 0, 0
 			defer func() {
 				ctx.Stats.Count("fault_positions_executed", int64(faults))
